@@ -39,18 +39,25 @@ type Expr struct {
 	N int
 }
 
-func (e Expr) src() string {
+// names: how the body spells its position argument and its keyword argument (declared parameters or implicit argvars)
+type names struct{ i, k string }
+
+func (e Expr) src(n names) string {
 	switch e.K {
 	case "const":
 		return fmt.Sprint(e.N)
-	case "i", "k", "c", "nil":
+	case "c", "nil":
 		return e.K
+	case "i":
+		return n.i
+	case "k":
+		return n.k
 	case "i+n":
-		return fmt.Sprintf("i + %d", e.N)
+		return fmt.Sprintf("%s + %d", n.i, e.N)
 	case "i*k+c":
-		return "i * k + c"
+		return n.i + " * " + n.k + " + c"
 	case "table":
-		return "[10, 20, 30][i]"
+		return "[10, 20, 30][" + n.i + "]"
 	}
 	panic("bad expr")
 }
@@ -99,19 +106,19 @@ type Stmt struct {
 	Tag     string
 }
 
-func (s Stmt) src() string {
+func (s Stmt) src(n names) string {
 	switch s.K {
 	case "yield":
-		out := "yield " + s.E.src()
+		out := "yield " + s.E.src(n)
 		if s.Guarded {
-			out += fmt.Sprintf(" if i < %d", s.GuardN)
+			out += fmt.Sprintf(" if %s < %d", n.i, s.GuardN)
 		}
 		return out
 	case "recur":
 		if s.PassK {
-			return fmt.Sprintf("recur(i + %d, k: k + 1)", s.Step)
+			return fmt.Sprintf("recur(%s + %d, k: %s + 1)", n.i, s.Step, n.k)
 		}
-		return fmt.Sprintf("recur(i + %d)", s.Step)
+		return fmt.Sprintf("recur(%s + %d)", n.i, s.Step)
 	case "mark":
 		return fmt.Sprintf("%q.p", s.Tag)
 	}
@@ -119,16 +126,29 @@ func (s Stmt) src() string {
 }
 
 type Body struct {
-	K0    int
-	Stmts []Stmt
+	K0       int
+	Stmts    []Stmt
+	Implicit bool // no declared parameters: the body reads `\` and `\k`
+	Origin   int  // where the literal is evaluated (see origins)
 }
+
+// origins: the literal written at top level, or evaluated inside a function, a method, or another iterator's body
+// (before / after that iterator's own recur, and beside an unrelated `recur` variable)
+var origins = []string{"%s", "{|| %s}()", "{mk: m{%s}}.mk", "<{|j| yield %s}>.new(0).next", "<{|j| recur(j + 5); yield %s}>.new(0).next", "<{|j| yield %s; recur(j + 1)}>.new(7).next",
+	"{|recur| %s}(5)", "<{|j| yield <{|q| yield %s}>.new(1).next}>.new(0).next", "([1]@{|x| %s})[0]", "<{yield %s}>.new.next"}
 
 func (b Body) src() string {
 	parts := []string{}
-	for _, s := range b.Stmts {
-		parts = append(parts, s.src())
+	n := names{"i", "k"}
+	head := fmt.Sprintf("|i, k: %d| ", b.K0)
+	if b.Implicit {
+		n = names{"\\", "\\k"} // \k exists only when the keyword was passed: implicit bodies are always given k
+		head = ""
 	}
-	return fmt.Sprintf("<{|i, k: %d| %s}>", b.K0, strings.Join(parts, "; "))
+	for _, s := range b.Stmts {
+		parts = append(parts, s.src(n))
+	}
+	return fmt.Sprintf(origins[b.Origin], "<{"+head+strings.Join(parts, "; ")+"}>")
 }
 
 // next runs the body once on the model state: first yielded value, or stop.
@@ -162,13 +182,16 @@ func (b Body) next(m *state, c int, trace *[]string) (val V, stop bool) {
 
 func genBody() *rapid.Generator[Body] {
 	return rapid.Custom(func(t *rapid.T) Body {
-		b := Body{K0: rapid.IntRange(1, 3).Draw(t, "k0")}
+		b := Body{K0: rapid.IntRange(1, 3).Draw(t, "k0"), Implicit: rapid.IntRange(0, 3).Draw(t, "implicit") == 0}
+		if rapid.Bool().Draw(t, "nested origin") {
+			b.Origin = rapid.IntRange(1, len(origins)-1).Draw(t, "origin")
+		}
 		genExpr := func(l string) Expr {
 			k := rapid.SampledFrom([]string{"i", "i", "i*k+c", "i*k+c", "i+n", "k", "c", "const", "nil", "table", "table"}).Draw(t, l)
 			return Expr{K: k, N: rapid.IntRange(0, 9).Draw(t, l+"n")}
 		}
 		n := rapid.IntRange(0, 6).Draw(t, "bound")
-		recur := Stmt{K: "recur", Step: rapid.IntRange(1, 2).Draw(t, "step"), PassK: rapid.Bool().Draw(t, "passk")}
+		recur := Stmt{K: "recur", Step: rapid.IntRange(1, 2).Draw(t, "step"), PassK: rapid.Bool().Draw(t, "passk") || b.Implicit}
 		first := Stmt{K: "yield", E: genExpr("e1"), Guarded: rapid.IntRange(0, 5).Draw(t, "guard1") != 0, GuardN: n}
 		stmts := []Stmt{first}
 		if rapid.IntRange(0, 2).Draw(t, "second") == 0 {
@@ -314,7 +337,7 @@ func TestIteratorProtocol(t *testing.T) {
 			i0 := rapid.IntRange(-1, 3).Draw(t, "i0")
 			st := &state{i: i0, k: m.body.K0}
 			stmt := fmt.Sprintf("%s := %s.new(%d)", nm, src, i0)
-			if rapid.Bool().Draw(t, "withk") {
+			if rapid.Bool().Draw(t, "withk") || m.body.Implicit {
 				st.k = rapid.IntRange(1, 4).Draw(t, "k")
 				stmt = fmt.Sprintf("%s := %s.new(%d, k: %d)", nm, src, i0, st.k)
 			}
